@@ -572,9 +572,19 @@ func (g *TxGen) mkRegisterNode() *GenTx {
 		nd := NodeDescriptor(n, beacon.EpochTime(g.view().Epoch+2))
 		signers := NodeSigners(n)
 		intent := "missing-signature"
-		if g.rng.IntN(2) == 0 {
+		if x := g.rng.IntN(3); x == 0 {
 			i := g.rng.IntN(len(signers))
 			signers = append(append([]signature.Signer(nil), signers[:i]...), signers[i+1:]...)
+		} else if x == 1 {
+			// The right NUMBER of signatures, but one key's signature is missing and another of
+			// the node's keys signs twice.
+			i := 1 + g.rng.IntN(len(signers)-1)
+			j := g.rng.IntN(len(signers))
+			if j == i {
+				j = 0
+			}
+			signers = append([]signature.Signer(nil), signers...)
+			signers[i] = signers[j]
 		} else {
 			signers = append(append([]signature.Signer(nil), signers...), g.pickSigner().Signer)
 			intent = "extra-signature"
